@@ -22,7 +22,7 @@ RULE = ('states = namespace depth(4) x version(5) x file layout(3, + a service-o
 
 NAMESPACES = {0: (), 1: ('acme',), 2: ('acme', 'cloud'), 3: ('acme', 'cloud', 'deep')}
 VERSIONS = ['v1', 'v1beta1', 'v1p1beta1', 'v2alpha', '']
-LAYOUTS = ['one', 'two', 'two+sub', 'two+svc-only']
+LAYOUTS = ['one', 'two', 'two+sub', 'two+svc-only', 'siblings']
 DEPS = ['none', 'wkt', 'foreign']
 FNAMES = {'plain': ['widgets'], 'dotted': ['my.file'], 'keyword': ['import'], 'control-metadata': ['metadata'],
           'control-request': ['request'], 'camel': ['MyWidgets'], 'hyphen': ['my-widgets'],
@@ -47,6 +47,8 @@ OPTION_EDITS = {
     'repeated-transport': ('transport=grpc,transport=rest', 'same'),       # first wins
     'unknown-with-equals-in-value': ('frob=a=b', 'same'),
     'known-flag-twice': ('metadata,metadata', 'ok'),
+    # the second template set lays the package out as <namespace>/<name>/<version>/
+    'ads': ('python-gapic-templates=ads-templates,old-naming', ('naming', None, None, 'ads')),
 }
 
 
@@ -74,6 +76,20 @@ def build(ns_depth, version, layout, deps, fname_kind, parameter=''):
         imports.append(dep.name)
         extra_fields.append(field('thing', 11, f'.{fp}.Thing'))
     main_msgs[0].field.extend(extra_fields)
+    if layout == 'siblings':
+        # every target file sits in a sub-package; no file in the API package itself (the googleads layout)
+        fa = file(f'{pdir}/parts/{stems[0]}.proto', pkg + '.parts', messages=[
+            message('Part', [field('name', 1, 'string')]), message('GetPartRequest', [field('name', 1, 'string')])])
+        fb = file(f'{pdir}/tools/tool.proto', pkg + '.tools', messages=[message('Tool', [field('name', 1, 'string'), field('part', 2, f'.{pkg}.parts.Part')])],
+                  services=[service('ToolService', [method('GetPart', f'.{pkg}.parts.GetPartRequest', f'.{pkg}.parts.Part',
+                                                           http=('get', '/v1/{name=parts/*}'))], host='widgets.example.com')])
+        std = desc.std_dep_names()
+        fa.dependency.extend(std)
+        fb.dependency.extend(std + [fa.name])
+        req = request([fa, fb], parameter + (',' if parameter else '') + 'autogen-snippets=false')
+        desc.gate(req)
+        return req, dict(package=pkg, ns=ns, version=version, targets=[(fa.name, pkg + '.parts', []), (fb.name, pkg + '.tools', ['ToolService'])],
+                         dep_names=[], dep_services=[])
     main = file(f'{pdir}/{stems[0]}.proto', pkg, messages=main_msgs,
                 services=[service('WidgetService', [method('GetWidget', Q('GetWidgetRequest'), Q('Widget'),
                                                             http=('get', '/v1/{name=widgets/*}'))], host='widgets.example.com')])
@@ -131,10 +147,14 @@ def judge_names(res, info, naming=None):
             out.append(('not-normalised', n))
     if not (res.get('supported_features', 0) & 1):
         out.append(('proto3-optional-not-advertised', str(res.get('supported_features'))))
-    name_o, ns_o = naming or (None, None)
+    name_o, ns_o = (naming or (None, None))[:2]
+    ads = bool(naming) and len(naming) > 2 and naming[2] == 'ads'
     ns = tuple(ns_o) if ns_o is not None else info['ns']
     nm = name_o or 'widgets'
-    root = '/'.join(ns + (nm + ('_' + info['version'] if info['version'] else ''),))
+    if ads:
+        root = '/'.join(ns + (nm,) + ((info['version'],) if info['version'] else ()))
+    else:
+        root = '/'.join(ns + (nm + ('_' + info['version'] if info['version'] else ''),))
     alias = '/'.join(ns + (nm,))
     py = [n for n in names_ if n.endswith('.py')]
     lib_py = [n for n in py if n.split('/')[0] not in LIB_TOP_OK and '/' in n]
@@ -153,6 +173,22 @@ def judge_names(res, info, naming=None):
             if d == root:
                 break
             d = posixpath.dirname(d)
+    # no package directory that the request does not call for
+    subs = {fpkg[len(info['package']):].strip('.').replace('.', '/') for _, fpkg, _ in info['targets']}
+    bases = {root} | {root + '/' + sub for sub in subs if sub}
+    ancestors = set()
+    for b_ in bases:
+        d = b_
+        while len(d) > len(root):
+            d = posixpath.dirname(d)
+            ancestors.add(d)
+    for n in lib_py:
+        if not n.startswith(root + '/'):
+            continue
+        d = posixpath.dirname(n)
+        if d in ancestors or any(d in (b_, b_ + '/types', b_ + '/services') or d.startswith(b_ + '/services/') for b_ in bases):
+            continue
+        out.append(('unexpected-directory', f'{n}: {d}/ is not a package of the API (sub-packages of the request: {sorted(x for x in subs if x)})'))
     # exactly one types module per target proto, one service package per service
     by_sub = {}
     for fname, fpkg, svcs in info['targets']:
@@ -211,6 +247,8 @@ def all_states():
             continue    # the generator requires a version when target files span several proto packages
         if s[2] == 'two+svc-only' and s[4] != 'plain':
             continue    # the service-only file is crossed with package shape, version and dependencies only
+        if s[2] == 'siblings' and (s[4] != 'plain' or s[3] != 'none' or s[1] == ''):
+            continue    # sibling sub-packages: crossed with package shape and version (a version is required, as for two+sub)
         if s[0] == 0 and s[1] == '' :
             pass
         yield s
@@ -280,7 +318,7 @@ def run(ctx, only=None):
         if len(res['names']) >= 20:
             ctx.nontrivial_case(job['id'])
         kind = OPTION_EDITS[o][1] if o else 'ok'
-        naming = (kind[1], kind[2]) if isinstance(kind, tuple) else None
+        naming = tuple(kind[1:]) if isinstance(kind, tuple) else None
         problems = judge_names(res, job['_info'], naming)
         if kind == 'same':
             b = base.get(s)
